@@ -293,6 +293,50 @@ def r15_5(chk: Check):
             okw, howw = is_zero(sp.simplify((1 - 3 * alp) * mu_ - nu_), chk.seed, ranges={vmm: (0, 1), mu_: (4, 5), nu_: (4, 5)})
     chk.ob("R15.5", ff.where(), "findMatching: the bracket cut `vpSignChangeWp` is the v+ where the template enthalpy changes sign, i.e. it solves "
            "(1 - 3 alpha+(v+, v-)) mu == nu with cb^2 = 1/(nu - 1)", okw, howw, key="wp-sign-change", how=howw)
+    # maxAl re-implements the wall residual at vw = vJ: its residual must be _eqWall's with v- = cb, the v+ it computes, and (alpha+, w+) related by wFromAlpha
+    fmx = S.func(f"{TM}.maxAl")
+    few = S.func(f"{TM}._eqWall")
+    chk.touch(fmx.name, few.name)
+    nested = [f for f in S.modules[fmx.module].funcs.values() if f.parent is fmx and any(True for _ in calls_in(f.node, "findJouguetVelocity"))]
+    okm, howm = None, "the nested residual of maxAl (the function evaluated at vw = findJouguetVelocity(alpha_n)) not found"
+    pe = _params(few)
+    if len(nested) == 1 and len(pe) == 3:
+        fr = nested[0]
+        cr = Ctx(S, fr)
+        prm = _params(fr)
+        rets = [r for r in own_nodes(fr.node) if isinstance(r, ast.Return)]
+        wname = vpname = None
+        for st in own_nodes(fr.node):
+            if isinstance(st, (ast.Assign, ast.AnnAssign)) and st.value is not None and _target_name(st):
+                b = match(st.value, "self.psiN * __w ** (self.nu / self.mu - 1)")
+                if b:
+                    wname = b["w"]
+                if match(st.value, "self.cs2 / __vw") and not isinstance(st.value, ast.Name):
+                    vpname = _target_name(st)
+        if len(rets) == 1 and len(prm) == 1 and wname and vpname:
+            plain = Extractor(S)
+            Mt = plain.expr(cr.resolve(rets[0].value, keep={wname, vpname}), dict(TENV))
+            a_, v_ = sp.Symbol("al_", real=True), sp.Symbol("vm_", real=True)
+            Et = plain.single(few, {pe[0]: a_, pe[1]: v_, pe[2]: sp.Integer(-1)})
+            if isinstance(Mt, sp.Basic) and isinstance(Et, sp.Basic):
+                w_, vp_s, alN_ = plain.sym(wname), plain.sym(vpname), plain.sym(prm[0])
+                mu_, nu_ = plain.sym("self.mu"), plain.sym("self.nu")
+                Et = Et.replace(lambda x: isinstance(x, sp.core.function.AppliedUndef) and x.func.__name__.endswith("getVp"), lambda x: vp_s)
+                Et = Et.replace(lambda x: isinstance(x, sp.core.function.AppliedUndef) and x.func.__name__.endswith("wFromAlpha"), lambda x: w_)
+                # alpha+ as a function of w+: inverse of wFromAlpha (w+ = ((1 - 3 alpha_n) mu - nu) / ((1 - 3 alpha+) mu - nu))
+                A = (1 - (nu_ + ((1 - 3 * alN_) * mu_ - nu_) / w_) / mu_) / 3
+                closure_vm = plain.expr(cr.resolve(ast.parse("vm", mode="eval").body), dict(TENV)) if False else None
+                # v- of the residual: the closure variable of maxAl, which must be the sound speed behind the wall
+                cm = Ctx(S, fmx)
+                vm_defs = [st for st in own_nodes(fmx.node) if isinstance(st, (ast.Assign, ast.AnnAssign)) and st.value is not None and eqx(st.value, "self.cb")]
+                vmS = plain.sym(_target_name(vm_defs[0])) if len(vm_defs) == 1 else None
+                if vmS is not None:
+                    Es = Et.subs({a_: A, v_: vmS}, simultaneous=True)
+                    okm, howm = is_zero(sp.simplify(Mt - Es), chk.seed, ranges={w_: (0.5, 2), vp_s: (0.1, 0.9), vmS: (0.1, 0.9), mu_: (4, 5), nu_: (4, 5), alN_: (0.01, 0.3)})
+                else:
+                    okm, howm = False, "v- of the residual is not the sound speed behind the wall (self.cb)"
+    chk.ob("R15.5", fmx.where(), "maxAl: the residual evaluated at vw = vJ is the wall residual _eqWall with v- = cb, its own v+ and (alpha+, w+) related by "
+           "wFromAlpha (same exponents and coefficients)", okm, howm, key="maxAl-residual", how=howm if okm else "")
     chk.floor("R15.5", 10)
 
 
